@@ -285,9 +285,21 @@ func H_E2E_PowerFailure(v *verifrt.T) {
 		v.Assert(del, "C02 a source file is removed only if its tag says so")
 		v.Reach("removed")
 	}
+	// C03: after the last fault and a failure-free run nothing is stuck anywhere
+	for _, f := range v.Files(filepath.Join(root, "stage")) {
+		v.Assert(f == "", "C03 nothing is left in the staging area: "+f)
+	}
 	if c, err := cache.NewJSON(filepath.Join(root, "cache"), "/out", "k"); err == nil {
-		if f := c.Get("g/a"); f != nil && f.IsDone() {
+		f := c.Get("g/a")
+		v.Assert(f == nil || f.IsDone(), "C03 every file is confirmed and marked done (or deleted) at the source")
+		if f != nil && f.IsDone() {
 			v.Reach("done-in-cache")
 		}
+		if two {
+			fb := c.Get("g/b")
+			v.Assert(fb == nil || fb.IsDone(), "C03 every file is confirmed and marked done (or deleted) at the source")
+		}
+	} else {
+		v.Assert(false, "C07 the cache file is loadable")
 	}
 }
